@@ -33,7 +33,7 @@ type secNode struct {
 }
 
 type ctEntry struct {
-	Hdr      []byte
+	A, B     int // the header is lit[A:B]
 	Kind     int // 0 other, 1 message/rfc822, 2 multipart
 	Boundary []byte
 }
@@ -100,7 +100,8 @@ func handleMsg(req request) response {
 		if !seenCT[string(h)] {
 			seenCT[string(h)] = true
 			if k != 0 {
-				ct = append(ct, ctEntry{Hdr: append([]byte{}, h...), Kind: k, Boundary: b})
+				a := offsetIn(lit, h)
+				ct = append(ct, ctEntry{A: a, B: a + len(h), Kind: k, Boundary: b})
 			}
 		}
 		return k
